@@ -99,58 +99,72 @@ def pairings_are_disjoint(h, N, which):
         h.same(f"{name}: as many pairs as possible", len(pairs), N // 2)
 
 
-@unit("C08", quick=[dict(N=2, cp=4), dict(N=3, cp=2)], thorough=[dict(N=3, cp=5), dict(N=4, cp=1)], max_paths=20000, cost=5)
-def swap_is_metropolis_exchange(h, N, cp):
+def _exchange_round(h, pt, sc, chains, betas, L, N, tag=""):
+    """one swap() round, asserted against the exchange rule (labels of the checks are prefixed with `tag`)"""
+    n_us0 = len([1 for k, v in pt.rng.log if k == "u"])
+    class _Tagged:
+        def __getattr__(self, name):
+            f = getattr(h, name)
+            if name in ("same", "true", "eq", "ge", "le"):
+                return lambda label, *a, **k: f(tag + label, *a, **k)
+            return f
+    H = _Tagged() if tag else h
+    before_pts = [c.get_last().copy() for c in chains]
+    before_L = [L(p) for p in before_pts]
+    att0, suc0 = np.array(pt.attempted_swaps).copy(), pt.successful_swaps.copy()
+    order = []
+
+    class _Counting(np.ndarray):      # the attempt counters, remembering the order in which pairs were counted
+        def __setitem__(self, key, value):
+            if isinstance(key, tuple) and len(key) == 2 and all(isinstance(k, (int, np.integer)) for k in key):
+                order.append((int(key[0]), int(key[1])))
+            np.ndarray.__setitem__(self, key, value)
+    pt.attempted_swaps = np.array(pt.attempted_swaps).view(_Counting)
+    pt.swap()
+    sc.drain()
+    us = [v for k, v in pt.rng.log if k == "u"][n_us0:]
+    # the proposed pairs from the attempt counters; the uniform draws are consumed in the order in which the pairs are
+    # processed, which is the order in which they were counted (falls back to index order if that was not observable)
+    datt = np.asarray(pt.attempted_swaps) - att0
+    pairs = [(i, j) for i in range(N) for j in range(N) if datt[i, j] == 1]
+    seen = [p for k, p in enumerate(order) if p in pairs and p not in order[:k]]
+    if sorted(seen) == sorted(pairs):
+        pairs = seen
+    elif len(pairs) > 1:
+        raise mc.HarnessOutOfDate("cannot tell in which order the proposed pairs consumed their uniform draws")
+    flat = [v for p in pairs for v in p]
+    H.same("each chain in at most one proposed pair", len(flat), len(set(flat)))
+    H.same("one uniform draw per proposed pair", len(us), len(pairs))
+    touched = set()
+    for (i, j), u in zip(pairs, us):
+        ratio = h.exp((betas[i] - betas[j]) * (before_L[j] - before_L[i]))
+        swapped = (pt.successful_swaps - suc0)[i, j] == 1
+        if swapped:
+            H.true(f"pair ({i},{j}) exchanged  =>  u <= exp((b_i-b_j)(L_j-L_i))", u <= ratio)
+            H.eq(f"chain {i} now holds chain {j}'s previous point", chains[i].get_last(), before_pts[j])
+            H.eq(f"chain {j} now holds chain {i}'s previous point", chains[j].get_last(), before_pts[i])
+            H.eq(f"chain {i} log-probability re-expressed at its own temperature", chains[i].probs[-1], before_L[j] * betas[i])
+            H.eq(f"chain {j} log-probability re-expressed at its own temperature", chains[j].probs[-1], before_L[i] * betas[j])
+            touched |= {i, j}
+        else:
+            H.true(f"pair ({i},{j}) not exchanged  =>  u >= min(1, exp((b_i-b_j)(L_j-L_i)))", u >= ratio)
+    H.same("successful swaps only among proposed pairs", int((pt.successful_swaps - suc0).sum()) <= len(pairs), True)
+    for k in range(N):
+        if k not in touched:
+            H.eq(f"chain {k} untouched (point)", chains[k].get_last(), before_pts[k])
+            H.eq(f"chain {k} untouched (log-probability)", chains[k].probs[-1], before_L[k] * betas[k])
+
+
+@unit("C08", quick=[dict(N=2, cp=4), dict(N=3, cp=2), dict(N=2, cp=2, rounds=2)], thorough=[dict(N=3, cp=5), dict(N=4, cp=1), dict(N=3, cp=1, rounds=2)], max_paths=20000, cost=5)
+def swap_is_metropolis_exchange(h, N, cp, rounds=1):
     import inference.mcmc.parallel as par
     h.covers(par.ParallelTempering.swap, par.tempering_process, par.ParallelTempering.__init__)
     par_, sc, pt, chains, betas, L = _system(h, N, lambda n, labels: h.choice_int("schedule", 0, n - 1), cp)
     try:
         pt.rng = stubs.SymRng(h, "swap")
         h.patch(par, both=True, choice=lambda seq: seq[h.choice_int("random.choice", 0, len(seq) - 1)])
-        before_pts = [c.get_last().copy() for c in chains]
-        before_L = [L(p) for p in before_pts]
-        att0, suc0 = np.array(pt.attempted_swaps).copy(), pt.successful_swaps.copy()
-        order = []
-
-        class _Counting(np.ndarray):      # the attempt counters, remembering the order in which pairs were counted
-            def __setitem__(self, key, value):
-                if isinstance(key, tuple) and len(key) == 2 and all(isinstance(k, (int, np.integer)) for k in key):
-                    order.append((int(key[0]), int(key[1])))
-                np.ndarray.__setitem__(self, key, value)
-        pt.attempted_swaps = np.array(pt.attempted_swaps).view(_Counting)
-        pt.swap()
-        sc.drain()
-        us = [v for k, v in pt.rng.log if k == "u"]
-        # the proposed pairs from the attempt counters; the uniform draws are consumed in the order in which the pairs are
-        # processed, which is the order in which they were counted (falls back to index order if that was not observable)
-        datt = np.asarray(pt.attempted_swaps) - att0
-        pairs = [(i, j) for i in range(N) for j in range(N) if datt[i, j] == 1]
-        seen = [p for k, p in enumerate(order) if p in pairs and p not in order[:k]]
-        if sorted(seen) == sorted(pairs):
-            pairs = seen
-        elif len(pairs) > 1:
-            raise mc.HarnessOutOfDate("cannot tell in which order the proposed pairs consumed their uniform draws")
-        flat = [v for p in pairs for v in p]
-        h.same("each chain in at most one proposed pair", len(flat), len(set(flat)))
-        h.same("one uniform draw per proposed pair", len(us), len(pairs))
-        touched = set()
-        for (i, j), u in zip(pairs, us):
-            ratio = h.exp((betas[i] - betas[j]) * (before_L[j] - before_L[i]))
-            swapped = (pt.successful_swaps - suc0)[i, j] == 1
-            if swapped:
-                h.true(f"pair ({i},{j}) exchanged  =>  u <= exp((b_i-b_j)(L_j-L_i))", u <= ratio)
-                h.eq(f"chain {i} now holds chain {j}'s previous point", chains[i].get_last(), before_pts[j])
-                h.eq(f"chain {j} now holds chain {i}'s previous point", chains[j].get_last(), before_pts[i])
-                h.eq(f"chain {i} log-probability re-expressed at its own temperature", chains[i].probs[-1], before_L[j] * betas[i])
-                h.eq(f"chain {j} log-probability re-expressed at its own temperature", chains[j].probs[-1], before_L[i] * betas[j])
-                touched |= {i, j}
-            else:
-                h.true(f"pair ({i},{j}) not exchanged  =>  u >= min(1, exp((b_i-b_j)(L_j-L_i)))", u >= ratio)
-        h.same("successful swaps only among proposed pairs", int((pt.successful_swaps - suc0).sum()) <= len(pairs), True)
-        for k in range(N):
-            if k not in touched:
-                h.eq(f"chain {k} untouched (point)", chains[k].get_last(), before_pts[k])
-                h.eq(f"chain {k} untouched (log-probability)", chains[k].probs[-1], before_L[k] * betas[k])
+        for r in range(rounds):
+            _exchange_round(h, pt, sc, chains, betas, L, N, tag=(f"round {r}: " if rounds > 1 else ""))
         pt.shutdown()
         h.same("all workers terminated after shutdown", [t.finished for t in sc.tasks], [True] * N)
     finally:
